@@ -130,6 +130,13 @@ def header_combo_cases(case, seed=1):
             out.append(case("rt", ty, b, fam="combo-header-rt:" + ty, expect_re=r"ok [0-9a-f]+ T T"))
             for t in (55799, 1):
                 out.append(case("dec", ty, head(6, t) + b, fam="combo-header-tagged:" + ty, expect_re=r"err:\w+"))
+            if slot == "p":     # exactly one encoded map inside the protected bstr: nothing after it, nothing cut off
+                for tail in (b"\x00", b"\xa0", b"\xff", b"\x18"):
+                    ty3, b3, _ = _carriers(hb + tail)[ci]
+                    out.append(case("dec", ty3, b3, fam="combo-header-protected-trailing:" + ty3, expect_re=r"err:\w+"))
+                if len(hb) > 1:
+                    ty3, b3, _ = _carriers(hb[:-1])[ci]
+                    out.append(case("dec", ty3, b3, fam="combo-header-protected-truncated:" + ty3, expect_re=r"err:\w+"))
             for dv in dup_variants(entries, rng):
                 ty2, b2, _ = _carriers(enc(('m', dv)))[ci]
                 out.append(case("dec", ty2, b2, fam="combo-header-dup:" + ty2, expect_re=r"err:\w+"))
@@ -395,6 +402,25 @@ def wide_inputs():
     out.append(("ClaimsSet", mp(k) + b"".join(b"\x64" + ("%04x" % i).encode() + b"\x00" for i in range(k))))
     out.append(("CoseKeySet", arr(m) + b"\xa1\x01\x04" * m))
     out.append(("CoseKey", mp(2) + b"\x01\x04\x04" + arr(k) + b"".join(b"\x64" + ("%04x" % i).encode() for i in range(k))))
+    # deep AND branching: recipients nested 60 deep with 1..5 entries per level, the deep entry first or last
+    small = b"\x83\x40\xa0\xf6"
+    for fan in (1, 2, 3, 4, 5):
+        for last in (True, False):
+            r = small
+            for _ in range(60):
+                sib = small * (fan - 1)
+                r = b"\x84\x40\xa0\xf6" + arr(fan) + ((sib + r) if last else (r + sib))
+            out.append(("CoseRecipient", r))
+            out.append(("CoseEncrypt", b"\x84\x40\xa0\xf6" + arr(1) + r))
+            out.append(("CoseMac", b"\x85\x40\xa0\xf6\x40" + arr(1) + r))
+    # counter-signature chains 16 deep in list form with 1..4 entries per level
+    for fan in (1, 2, 3, 4):
+        inner = b"\xa0"
+        sg = b"\x83\x40\xa0\x40"
+        for _ in range(15):
+            sig = b"\x83" + head(2, len(inner)) + inner + b"\xa0\x40"
+            inner = b"\xa1\x07" + arr(fan) + sg * (fan - 1) + sig
+        out.append(("Header", inner))
     return out
 
 # ------------------------------------------------------------------ follow the current registries
